@@ -127,7 +127,7 @@ Ltac splitR := split; [simpl; auto | split; [simpl; auto | simpl]].
 
 Lemma step_refines w st ss o : R w st ss -> R w (step true w st o) (sstep w ss o).
 Proof.
-  intros (B & L & C). destruct o as [new inf o0 hs spare | parent new inf opts | p new inf | u t]; simpl.
+  intros (B & L & C). destruct o as [new inf o0 hs spare | parent new inf opts | p new inf | u t | src new inf lo hi]; simpl.
   - (* ORaw *)
     pose proof (alloc_slice_spec (st_heap st) o0 hs spare) as A.
     unfold alloc_slice in A. cbv zeta in A. cbn [fst snd] in A.
@@ -175,6 +175,19 @@ Proof.
         rewrite L, Rd, G, I. reflexivity.
       * splitR; auto.
     + splitR. auto.
+  - (* OAlias *)
+    pose proof (lookup_rel w (st_heap st) src _ _ C) as P.
+    destruct (lookup src (st_ctxs st)) as [c|], (lookup src (ss_ctxs ss)) as [sc|]; try contradiction;
+      [|splitR; auto].
+    destruct c as [m|], sc as [[l i]|]; simpl in P; try contradiction; [|splitR; auto].
+    destruct P as (G & I & W & Rd).
+    assert (Hlen : List.length l = len (m_handlers m)) by (rewrite <- Rd; apply read_length; auto).
+    rewrite Hlen.
+    destruct ((lo <=? hi)%nat && (hi <=? len (m_handlers m))%nat) eqn:E; [|splitR; auto].
+    apply andb_prop in E. destruct E as [E1 E2]. apply Nat.leb_le in E1. apply Nat.leb_le in E2.
+    destruct (reslice_spec (st_heap st) (m_handlers m) lo hi W E1 E2) as [W' Rd'].
+    splitR. constructor; auto. split; simpl; auto.
+    apply new_manager_rel; auto. now rewrite Rd', Rd.
 Qed.
 
 Lemma run_from_refines w ops : forall st ss,
@@ -221,19 +234,23 @@ Definition creates (o : op) : option ukey :=
   | OAppend _ n _ _ => Some n
   | OReuse _ n _ => Some n
   | OOn _ _ => None
+  | OAlias _ n _ _ _ => Some n
   end.
 Definition no_rebind (u : ukey) (ops : list op) : Prop := forall o, In o ops -> creates o <> Some u.
 
 Lemma sstep_lookup_other w ss o u :
   creates o <> Some u -> lookup u (ss_ctxs (sstep w ss o)) = lookup u (ss_ctxs ss).
 Proof.
-  intros H. destruct o as [new inf o0 hs spare | parent new inf opts | p new inf | v t]; simpl in *.
+  intros H. destruct o as [new inf o0 hs spare | parent new inf opts | p new inf | v t | src new inf lo hi]; simpl in *.
   - destruct (N.eqb u new) eqn:E; auto. apply N.eqb_eq in E. congruence.
   - destruct (match parent with None => Some None | Some p => lookup p (ss_ctxs ss) end); simpl; auto.
     destruct (N.eqb u new) eqn:E; auto. apply N.eqb_eq in E. congruence.
   - destruct (lookup p (ss_ctxs ss)); simpl; auto.
     destruct (N.eqb u new) eqn:E; auto. apply N.eqb_eq in E. congruence.
   - destruct (lookup v (ss_ctxs ss)) as [[[l i]|]|]; simpl; auto.
+  - destruct (lookup src (ss_ctxs ss)) as [[[l i]|]|]; simpl; auto.
+    destruct (_ && _); simpl; auto.
+    destruct (N.eqb u new) eqn:E; auto. apply N.eqb_eq in E. congruence.
 Qed.
 
 Lemma spec_lookup_stable w ops : forall ss u,
@@ -302,9 +319,6 @@ Qed.
 
 (* ---------------------------------------------------------------- events of one unit *)
 
-Definition ev_unit (e : event) : ukey := match e with Ev u _ _ _ => u end.
-Definition ev_handler (e : event) : handler := match e with Ev _ x _ _ => x end.
-Definition of_unit (u : ukey) (e : event) : bool := N.eqb (ev_unit e) u.
 
 Lemma filter_events_same u t inf l : filter (of_unit u) (events_of u t inf l) = events_of u t inf l.
 Proof.
@@ -343,7 +357,7 @@ Proof.
     rewrite (IH (sstep w ss o) u c); auto.
     2:{ rewrite sstep_lookup_other; auto. }
     rewrite flat_map_app, app_assoc. f_equal.
-    destruct o as [new inf o0 hs spare | parent new inf opts | p new inf | v t]; simpl.
+    destruct o as [new inf o0 hs spare | parent new inf opts | p new inf | v t | src new inf lo hi]; simpl.
     + now rewrite app_nil_r.
     + rewrite app_nil_r.
       destruct (match parent with None => Some None | Some p => lookup p (ss_ctxs ss) end); reflexivity.
@@ -356,6 +370,8 @@ Proof.
       * apply N.eqb_neq in E. simpl. rewrite app_nil_r.
         destruct (lookup v (ss_ctxs ss)) as [[[l inf]|]|]; simpl; auto.
         rewrite filter_app, filter_events_other by auto. now rewrite app_nil_r.
+    + rewrite app_nil_r. destruct (lookup src (ss_ctxs ss)) as [[[l i]|]|]; try reflexivity.
+      destruct (_ && _); reflexivity.
 Qed.
 
 (* a unit that does not exist (yet) has no events: On on an unknown context is flagged *)
@@ -376,12 +392,14 @@ Proof.
   destruct (IH (sstep w ss o) u) as [F Lk]; auto.
   { rewrite sstep_lookup_other; auto. }
   split; auto. rewrite F.
-  destruct o as [new inf o0 hs spare | parent new inf opts | p new inf | v t]; simpl; auto.
+  destruct o as [new inf o0 hs spare | parent new inf opts | p new inf | v t | src new inf lo hi]; simpl; auto.
   - destruct (match parent with None => Some None | Some p => lookup p (ss_ctxs ss) end); reflexivity.
   - destruct (lookup p (ss_ctxs ss)); reflexivity.
   - destruct (lookup v (ss_ctxs ss)) as [[[l inf]|]|] eqn:E; simpl; auto.
     rewrite filter_app, filter_events_other, app_nil_r; auto.
     intros ->. congruence.
+  - destruct (lookup src (ss_ctxs ss)) as [[[l i]|]|]; try reflexivity.
+    destruct (_ && _); reflexivity.
 Qed.
 
 Lemma run_spec_app_cons w a o b :
